@@ -168,7 +168,7 @@ def main(run):
             for b in bad[:1]:
                 run.violation(b, {"calls": calls, "target_delay": td, "init_delay": idl, "with_init": wi, "with_final": wf,
                                   "gaps": gaps, "events": [e[0] for e in log][:200]})
-            if run.violations:
+            if run.concrete():
                 break
         if (run.thorough or drift or run.proof_ok is False) and not run.violations:
             heavy = [(["start", "stop", "start", "stop"], 3.0, 0, True, True, [0.2, 0.0, 0.2, 0.0], 12.0),
@@ -181,7 +181,7 @@ def main(run):
                 for b in bad[:1]:
                     run.violation(b, {"calls": calls, "target_delay": td, "init_delay": idl, "with_init": wi,
                                       "with_final": wf, "gaps": gaps, "events": [e[0] for e in log][:200]})
-                if run.violations:
+                if run.concrete():
                     break
     finally:
         sys.setswitchinterval(old)
